@@ -336,10 +336,13 @@ def _worker(chunk, st: Stats, scratch):
         st.sample({"cache_cfg": chunk[0][0], "history": chunk[0][1]})
 
 
-def histories(depth):
+def histories(depth, extra_first=()):
+    """all histories of <= depth ops ending in a turn with an earlier turn; plus depth+1 histories whose first op is in extra_first"""
     out = []
-    for d in range(2, depth + 1):
+    for d in range(2, depth + 2):
         for pre in itertools.product(OPS, repeat=d - 1):
+            if d == depth + 1 and pre[0] not in extra_first:
+                continue
             if not any(o[0] == "T" for o in pre):
                 continue  # nothing populated a cache before the final turn
             for last in TURNS:
@@ -349,7 +352,9 @@ def histories(depth):
 
 def run(run: Run) -> None:
     depth = 4 if run.thorough else 3
-    hs = histories(depth)
+    # quick additionally explores the depth-4 histories that start with the kill switch (turn-level cache hits only occur
+    # while the version does not move)
+    hs = histories(depth, extra_first=() if run.thorough else (("KILL",),))
     items = [(cc, h) for cc in CACHE_CONFIGS for h in hs]
     run.notes["depth"] = depth
     run.notes["alphabet_size"] = len(OPS)
